@@ -27,6 +27,11 @@ def annotate(res, an):
     """what the front end had to adapt to on this tree (recorded in the evidence, never silently)"""
     notes = list(getattr(an, 'renamed', []))
     notes += ['not analysed (uninstantiated member template outside the documented API): %s' % t for t in getattr(an.prog, 'skipped_templates', [])]
+    notes += ['public member template outside the documented API instantiated by trial compilation: %s' % t for t in getattr(an.prog, 'auto_instantiated', [])]
+    for name in an.roles:
+        for m in an.prog.classes[name].methods:
+            if getattr(m, 'eff_kind', None) not in (None, 'UNKNOWN'):
+                notes.append('%s::%s is not named by the properties: judged as %s by what it does' % (name, m.key(), m.eff_kind))
     for name, r in an.roles.items():
         if getattr(r, 'inert', None):
             notes.append('%s: bookkeeping members that never reach a decision / result (not container state for the behavioural rules): %s'
@@ -273,10 +278,11 @@ c18 = _simple('C18', rules_misc.rule_c18,
               'abstracted, results renumbered) of its loop body equals that of the single-key sibling (R-SIB-BODY); results are delivered once '
               'per element paired with the element\'s own key, tallies change exactly on successes, no early exit (R-SIB-PLUMB); one clock '
               'sample outside the loop, same prefix (purge) as the single form (R-SIB-ONCE); fifo range overloads forward begin/end of the same '
-              'range (R-SIB-FWD). One critical section for the whole loop is C06.',
+              'range (R-SIB-FWD); the allow / peek parameters of a range form and of its single-key form default to the same enumerator '
+              '(R-SIB-DEFAULTS). One critical section for the whole loop is C06.',
               ['ut_map/ut_set insert_range purges once before the loop: equal to per-call purging when uniform_ttl > 0 (observation O1)',
                'RI at entry of every iteration (loop invariant, by C01/C02 clauses)'],
-              {'R-SIB-BODY': 40, 'R-SIB-PLUMB': 100, 'R-SIB-ONCE': 40, 'R-SIB-PREFIX': 30})
+              {'R-SIB-BODY': 40, 'R-SIB-PLUMB': 100, 'R-SIB-ONCE': 40, 'R-SIB-PREFIX': 30, 'R-SIB-DEFAULTS': 12})
 c01 = _simple('C01', rules_misc.rule_c01,
               'C01 (DESIGN.md 6.C01): key<->slot binding discipline on every path of every entry point: R-LOOKUP-PROV (the index is consulted '
               'with the call\'s own key / range element, a hit yields exactly the value field of the slot the index names for that key, a miss '
